@@ -23,14 +23,14 @@ PLAN = {
 PLAN2 = {
  'r2_any_op_closes_batch': ('C03,C04,C06', ''), 'r2_lazy_checkslashing': ('C02,C06', 'KEEP'), 'r2_unbond_close_first': ('C03,C07,C05', ''),
  'r2_safety3': ('C01,C06', ''), 'r2_waitlist_tombstone': ('C07', ''), 'r2_skip_zero_claim': ('C07', ''), 'r2_history_newest_first': ('C07,C08', ''),
- 'r2_forged_receive_noop': ('C07', ''), 'r2_half_fee': ('C05', ''), 'r2_history_limit_reject': ('C07,C01', ''), 'r2_raw_supply_query': ('C03', ''),
+ 'r2_forged_receive_noop': ('C07', ''), 'r2_half_fee': ('C05', ''), 'r2_history_limit_reject': ('C07,C01', ''), 'r2_raw_supply_query': ('C03', 'NOT-PRESERVING'),
  'r2_reply_on_error': ('C01', 'GAP'), 'r2_delegate_proxy': ('C10,C01', ''),
  'r2_history_limit_rejected': ('C08,C13,C14', ''), 'r2_chain_validator_query': ('C13', ''), 'r2_c08_first_batch_no_wait': ('C08', ''),
  'r2_c08_withdraw_rate_estimate': ('C08', ''), 'r2_c09_quote_remembered': ('C09', ''), 'r2_c09_one_batch_per_withdrawal': ('C09', ''),
- 'r2_c10_registry_hub_fixed': ('C10', ''), 'r2_c11_unpause_syncs_books': ('C11', ''), 'r2_c12_plan_without_trailing_zeros': ('C12', ''),
+ 'r2_c10_registry_hub_fixed': ('C10', ''), 'r2_c11_unpause_syncs_books': ('C11', 'KEEP'), 'r2_c12_plan_without_trailing_zeros': ('C12', ''),
  'r2_c12_empty_list_aborts': ('C12', ''), 'r2_c14_fraction_six_decimals': ('C14', 'KEEP'), 'r2_c13_removal_fails_when_locked': ('C13', ''),
  'r2_c14_update_without_holders_rejected': ('C14', ''), 'r2_c10_tokens_registered_together': ('C10', ''), 'r2_withdraw_payment_submessage': ('C08,C09', 'GAP'),
- 'r2_c14_claims_to_self_only': ('C14', ''), 'r2_c14_no_plain_transfer_to_hub': ('C14', ''),
+ 'r2_c14_claims_to_self_only': ('C14', ''), 'r2_c14_no_plain_transfer_to_hub': ('C14', 'ANTECEDENT'),
  'r2_reply_on_success': ('C17,C19', 'GAP'), 'r2_history_limit_refused': ('C16,C18,C19', ''), 'r2_c15_autoindex': ('C15', 'KEEP'),
  'r2_c17_swap_rejects_empty': ('C17', ''), 'r2_c17_extra_to_staking_coin': ('C17', ''), 'r2_c19_keeper_ceil': ('C19', ''),
  'r2_c19_release_in_ugi': ('C19', ''), 'r2_c19_ugi_checks_slashing_first': ('C19', ''), 'r2_c20_threshold_default': ('C20', ''),
